@@ -21,6 +21,10 @@ type c09 struct {
 	hookMode string // error | update | none: how the requestor's response hook reacts to the marker extension
 	nMsgs    int
 	kinds    []string
+	// a second request of the same requestor to the same responder (own DAG), so that one
+	// intruder message can carry responses for several requests that are not the intruder's
+	req2 *Req
+	dag2 *DAG
 }
 
 func newC09() Scenario { return &c09{c02: c02{prop: "C09"}} }
@@ -53,6 +57,14 @@ func (s *c09) Build(w *World) {
 	populate(s.b, s.dag, s.split.Rs)
 	s.t = NewScripted(w, "T")
 	s.req = s.a.NewReq("r1", s.b, s.dag.Root, s.sel)
+	if t.Chance(500) {
+		s.dag2 = GenDAG(t, GenCfg{MaxBlocks: 2 + t.Draw(8), MaxDepth: 1 + t.Draw(3), BlockPad: 11})
+		for _, c := range s.dag2.Order {
+			s.b.Store.Put(c, s.dag2.Blocks[c])
+		}
+		s.req2 = s.a.NewReq("r2", s.b, s.dag2.Root, AllSelector(6))
+	}
+	stray := ReqID("c09-stray")
 	s.hookMode = []string{"error", "update", "none"}[t.Draw(3)]
 	s.a.OnIncomingResponse = func(p peer.ID, r graphsync.ResponseData, a graphsync.IncomingResponseHookActions) {
 		if _, has := r.Extension(markerExt.Name); !has {
@@ -67,7 +79,7 @@ func (s *c09) Build(w *World) {
 	}
 	// the intruder's messages, released one by one by the scheduler
 	s.script = NewScript(w, "T")
-	s.script.Ready = func(int) bool { return s.req.Issued }
+	s.script.Ready = func(int) bool { return s.req.Issued && (s.req2 == nil || s.req2.Issued) }
 	s.nMsgs = 1 + t.Draw(5)
 	statuses := []graphsync.ResponseStatusCode{graphsync.PartialResponse, graphsync.RequestCompletedFull, graphsync.RequestCompletedPartial, graphsync.RequestFailedUnknown, graphsync.RequestRejected, graphsync.RequestFailedContentNotFound, graphsync.RequestCancelled, graphsync.RequestPaused, graphsync.RequestFailedBusy}
 	for i := 0; i < s.nMsgs; i++ {
@@ -92,14 +104,31 @@ func (s *c09) Build(w *World) {
 		if t.Chance(700) {
 			exts = append(exts, markerExt)
 		}
-		resp := gsmsg.NewResponse(s.req.ID, st, md, exts...)
-		m := gsmsg.NewMessage(nil, map[graphsync.RequestID]gsmsg.GraphSyncResponse{s.req.ID: resp}, blks)
-		s.kinds = append(s.kinds, fmt.Sprintf("st%d/md%d/blk%d/ext%d", st, nmd, len(blks), len(exts)))
+		// which requests the message names: r1 always unless another is drawn; r2 and an unknown ID on top
+		resps := map[graphsync.RequestID]gsmsg.GraphSyncResponse{}
+		names := ""
+		if s.req2 == nil || !t.Chance(200) {
+			resps[s.req.ID] = gsmsg.NewResponse(s.req.ID, st, md, exts...)
+			names += "+r1"
+		}
+		if s.req2 != nil && (len(resps) == 0 || t.Chance(600)) {
+			resps[s.req2.ID] = gsmsg.NewResponse(s.req2.ID, statuses[t.Draw(len(statuses))], md, exts...)
+			names += "+r2"
+		}
+		if t.Chance(250) {
+			resps[stray] = gsmsg.NewResponse(stray, st, nil, exts...)
+			names += "+stray"
+		}
+		m := gsmsg.NewMessage(nil, resps, blks)
+		s.kinds = append(s.kinds, fmt.Sprintf("%s:st%d/md%d/blk%d/ext%d", names, st, nmd, len(blks), len(exts)))
 		s.script.Add(func() { s.t.Send(s.a.ID, m) })
 	}
 	w.AddProvider(func() []*Event {
 		if !s.req.Issued {
 			return []*Event{s.req.IssueEvent()}
+		}
+		if s.req2 != nil && !s.req2.Issued {
+			return []*Event{s.req2.IssueEvent()}
 		}
 		return nil
 	})
@@ -110,32 +139,44 @@ func (s *c09) Describe(w *World) string {
 }
 
 func (s *c09) Done(w *World) bool {
-	if !s.req.Done() || !s.script.Done() {
+	if !s.req.Done() || !s.script.Done() || (s.req2 != nil && !s.req2.Done()) {
 		return false
 	}
 	return w.Quiet()
 }
 
 func (s *c09) Final(w *World) *Violation {
-	// R1: no hook of the requestor ran for the request on a message from the third peer
+	reqs := []*Req{s.req}
+	if s.req2 != nil {
+		reqs = append(reqs, s.req2)
+	}
+	victim := func(id graphsync.RequestID) bool {
+		for _, r := range reqs {
+			if r.ID == id {
+				return true
+			}
+		}
+		return false
+	}
+	// R1: no hook of the requestor ran for a request on a message from the third peer
 	for _, h := range s.a.Responses {
 		// (once the request has ended there is no request left to affect: the hook
 		// then runs for an unknown request ID, as it does for any stray response)
-		if h.Req == s.req.ID && h.Peer == "T" && h.Held {
-			return &Violation{Property: "C09", Rule: "R1", Signature: "response-hook-ran-for-third-peer", Detail: fmt.Sprintf("incoming response hook invoked for the request with sender T (status %d, step %d)", h.Status, h.Step)}
+		if victim(h.Req) && h.Peer == "T" && h.Held {
+			return &Violation{Property: "C09", Rule: "R1", Signature: "response-hook-ran-for-third-peer", Detail: fmt.Sprintf("incoming response hook invoked for request %s with sender T (status %d, step %d)", shortReq(h.Req), h.Status, h.Step)}
 		}
 	}
 	for _, h := range s.a.InBlocks {
-		if h.Req == s.req.ID && h.Peer == "T" {
+		if victim(h.Req) && h.Peer == "T" {
 			return &Violation{Property: "C09", Rule: "R1", Signature: "block-hook-ran-for-third-peer", Detail: "incoming block hook invoked with sender T"}
 		}
 	}
-	// R3: nothing sent on the request's behalf because of the intruder
-	// (a stray response for a request that has ended is answered like any stray
-	// response, e.g. with the update its hook asks for; that is not on the request's behalf)
+	// R3: nothing sent on a request's behalf because of the intruder
+	// (a stray response - for an unknown ID, or for a request that has ended - is answered
+	// like any stray response, e.g. with the update its hook asks for; that is not on a request's behalf)
 	over := 1 << 30
 	for _, h := range s.a.Responses {
-		if h.Req == s.req.ID && h.Peer == "T" && !h.Held && h.Step < over {
+		if h.Peer == "T" && !(victim(h.Req) && h.Held) && h.Step < over {
 			over = h.Step
 		}
 	}
@@ -143,22 +184,54 @@ func (s *c09) Final(w *World) *Violation {
 		if wm.Step < over {
 			return &Violation{Property: "C09", Rule: "R3", Signature: "message-to-third-peer", Detail: fmt.Sprintf("message sent to the third peer at step %d while the request was in progress", wm.Step)}
 		}
+		if wm.Err == nil {
+			for _, rq := range wm.Msg.Requests() {
+				if victim(rq.ID()) {
+					for _, r := range reqs {
+						if r.ID == rq.ID() && !r.Done() {
+							return &Violation{Property: "C09", Rule: "R3", Signature: "message-to-third-peer", Detail: fmt.Sprintf("%s for request %s sent to the third peer", rq.Type(), shortReq(rq.ID()))}
+						}
+					}
+				}
+			}
+		}
 	}
 	for _, wm := range w.Net.WireFor("A", "B") {
 		if wm.Err != nil {
 			continue
 		}
 		for _, rq := range wm.Msg.Requests() {
-			if rq.ID() == s.req.ID && rq.Type() != graphsync.RequestTypeNew {
+			if victim(rq.ID()) && rq.Type() != graphsync.RequestTypeNew {
 				return &Violation{Property: "C09", Rule: "R3", Signature: "request-" + string(rq.Type()) + "-caused-by-third-peer", Detail: fmt.Sprintf("the requestor sent a %s for the request to its responder although the genuine exchange gives no reason to", rq.Type())}
 			}
 		}
 	}
 	// R2: outcome and data exactly as without the intruder
-	if v := checkSingle("C09", s.req, s.dag, s.sel, s.split, s.a.Store.Snapshot()); v != nil {
+	// (each request is compared over the blocks of its own DAG; the two DAGs share none)
+	only := func(d *DAG) map[cid.Cid][]byte {
+		out := map[cid.Cid][]byte{}
+		for c, b := range s.a.Store.Snapshot() {
+			if _, ok := d.Blocks[c]; ok || (s.dag2 != nil && d == s.dag && s.dag2.Blocks[c] == nil) {
+				out[c] = b
+			}
+		}
+		return out
+	}
+	if v := checkSingle("C09", s.req, s.dag, s.sel, s.split, only(s.dag)); v != nil {
 		v.Rule = "R2"
 		v.Signature = "outcome-changed:" + v.Signature
 		return v
+	}
+	if s.req2 != nil {
+		sp2 := Split{Rq: map[cid.Cid]bool{}, Rs: map[cid.Cid]bool{}}
+		for _, c := range s.dag2.Order {
+			sp2.Rs[c] = true
+		}
+		if v := checkSingle("C09", s.req2, s.dag2, AllSelector(6), sp2, only(s.dag2)); v != nil {
+			v.Rule = "R2"
+			v.Signature = "outcome-changed:second-request:" + v.Signature
+			return v
+		}
 	}
 	return nil
 }
